@@ -60,6 +60,7 @@ def defects_back():
         P("D15-back", "C08", d + "11-e6108b4.revert.diff", "AC7"),
         P("D14a-back", "C19", d + "12-04daa9a.revert.diff", "AC8"),
         P("D14b-back", "C19", d + "13-8a67b5a.revert.diff", "C19-C"),
+        P("D23-back", "C02", d + "23-269c72d.revert.diff", "AC1"),
         P("D13-back", "C18", d + "14-41dcc60.revert.diff", "C18-C"),
         P("D04-back", "C11", d + "15-316b1fe.revert.diff", "C11-C"),
         P("D03-back", "C11", d + "16-3cd1d21.revert.diff", "C11-F"),
